@@ -69,6 +69,9 @@ def st_schedule(allow_const0=False):
     rle = st.tuples(st.just("rle"), st.lists(st.tuples(bit, st.integers(1, 12)).map(list), min_size=4, max_size=12)).map(list)
     iid = st.tuples(st.just("iid"), st.sampled_from([1, 2, 4, 6, 7]), st.integers(0, 2 ** 16)).map(list)
     # measured: Hypothesis favours the first alternative, so the trivial style comes last
+    # a schedule that is never 1 means "never offers / never ready": excluded here, requested explicitly where wanted
+    per = per.filter(lambda s_: 1 in s_[1])
+    rle = rle.filter(lambda s_: any(b == 1 for b, _ in s_[1]))
     base = st.one_of(per, rle, iid, per, rle, iid, st.just(["const", 1]))
     pre = st.tuples(st.just("pre"), st.integers(1, 24), bit, base).map(list)
     return st.one_of(base, base, pre)
@@ -130,7 +133,8 @@ class Producer:
     """Offers tokens according to a schedule; once it offers it holds valid and the token until the
     handshake.  token = (payload tuple, param tuple, first, last).  While idle it drives zeros or garbage."""
 
-    def __init__(self, ep, tokens, sched, garbage_seed=None, until=None, endless=None):
+    def __init__(self, ep, tokens, sched, garbage_seed=None, until=None, endless=None, gate=None):
+        self.gate = gate              # callable(i) -> bool: token i may be offered now
         self.ep = ep
         self.tokens = list(tokens)
         self.sched = sched if isinstance(sched, Schedule) else Schedule(sched)
@@ -168,7 +172,7 @@ class Producer:
         if not self.offering:
             tok = self._tok(self.idx)
             want = (self.until is not None and t >= self.until) or self.sched.bit(t)
-            if tok is not None and want:
+            if tok is not None and want and (self.gate is None or self.gate(self.idx)):
                 self.offering = True
                 self.cur = tok
                 self._drive(out, 1, tok)
@@ -197,7 +201,9 @@ class Consumer:
     """ready = schedule bit (may be high before valid, may drop without a handshake).  Records the
     handshakes and checks the hold rule on the endpoint it listens to."""
 
-    def __init__(self, ep, sched, until=None, check_hold=True):
+    def __init__(self, ep, sched, until=None, check_hold=True, gate=None, wait_valid=False):
+        self.gate = gate              # callable() -> bool: may be ready in the next cycle
+        self.wait_valid = wait_valid  # ready only after valid has been seen (valid-dependent ready)
         self.ep = ep
         self.sched = sched if isinstance(sched, Schedule) else Schedule(sched)
         self.pay, self.par = ep_fields(ep)
@@ -239,6 +245,10 @@ class Consumer:
                 self.max_stall = max(self.max_stall, self._stall_run)
                 self.prev = tok
         nxt = 1 if (self.until is not None and t >= self.until) else self.sched.bit(t)
+        if self.gate is not None and not self.gate():
+            nxt = 0
+        if self.wait_valid and not (valid and not self.ready_now):
+            nxt = 0
         self.ready_now = nxt
         self.w.set(out, self.ep.ready, nxt)
         return out
